@@ -150,6 +150,48 @@ Theorem C17_textinput_drawn_cursor_column_partial :
 Proof. exact ti_drawn_cursor_column. Qed.
 Print Assumptions C17_textinput_drawn_cursor_column_partial.
 
+(* The scroll offset survives between frames, so the guard "no earlier Draw has scrolled"
+   is a statement about the history of frames.  The three theorems below state what the
+   widget guarantees about that history; the differential run evaluates exactly this as the
+   guarded frame predicate (ti_draws_ok false; its scroll record ti_scrolled_next is
+   computed from window width, prompt, text and cursor index of the frames alone).
+
+   (a) A frame that reaches the text (window wider than the prompt) with the cursor within
+   the first scrolloff graphemes resets the view: the offset is 0 afterwards, whatever it
+   was (so every frame of an emptied field forgets the scroll of the previous line). *)
+Theorem C17_textinput_frame_resets_view :
+  forall (m : ti) (w : Z),
+    widths_ok (ti_prompt m) -> ti_reached (ti_prompt m) w = true -> ti_cursor m <= scrolloff ->
+    exists c, ti_draw m w = DrawDone 0 (Some c).
+Proof. exact ti_draw_resets. Qed.
+Print Assumptions C17_textinput_frame_resets_view.
+
+(* (b) The specification's scroll record is sound for every state, width and frame: if it
+   says "unscrolled" after a frame (and was right before it), the offset is 0. *)
+Theorem C17_textinput_scroll_record_sound :
+  forall (m : ti) (w : Z) (scrolled : bool) o shown,
+    widths_ok (ti_prompt m) -> widths_ok (ti_content m) ->
+    (scrolled = false -> ti_offset m = 0) ->
+    ti_draw m w = DrawDone o shown ->
+    ti_scrolled_next (ti_prompt m) w scrolled (ti_content m) (ti_cursor m) = false -> o = 0.
+Proof. exact ti_scrolled_next_sound. Qed.
+Print Assumptions C17_textinput_scroll_record_sound.
+
+(* (c) For every state and every finite history of operations and frames (any widths): a
+   sequence of observations that agrees with the model step by step satisfies the guarded
+   frame predicate.  So "no disagreement" implies "no unguarded violation" for the drawn
+   cursor column: in every frame in which prompt + text + margin fit, the cursor is within
+   the text, and the view is unscrolled (offset 0, or no frame since the last resetting
+   frame could have scrolled), the cursor is shown at prompt width + width before the cursor. *)
+Theorem C17_textinput_frames_of_agreeing_run :
+  forall (al : list Z) (steps : list ti_stepc) (m : ti) (scrolled : bool),
+    widths_okb (ti_prompt m) = true -> ti_obs_widths_ok steps = true ->
+    (scrolled = false -> ti_offset m = 0) ->
+    ti_agree al m steps = true ->
+    ti_draws_ok false (ti_prompt m) (ti_offset m) scrolled steps = true.
+Proof. exact ti_agree_frames_ok. Qed.
+Print Assumptions C17_textinput_frames_of_agreeing_run.
+
 (* guard (1) is needed: type 20 narrow characters, Draw at width 10, then Draw at width 80 —
    everything fits, yet the cursor is shown in column 5, not 20 *)
 Theorem C17_textinput_sticky_offset_refuted :
@@ -246,3 +288,26 @@ Proof.
     + exists [([128105; 8205; 128103], 2)]. split; [repeat constructor; cbn; tauto | reflexivity].
   - vm_compute. reflexivity.
 Qed.
+
+(* frames: a 20-column line drawn in a 10-column window scrolls (offset 15); Ctrl+u and a
+   frame of the empty field reset the view; 5 characters set afterwards are drawn in full
+   with the cursor in column 5.  The hypotheses of C17_textinput_frames_of_agreeing_run hold
+   for these observations, and so does the property as stated.  The same history with the
+   scroll surviving the empty frame (offset 15 kept, the 5 characters then drawn from the
+   second one with the cursor in column 4) is rejected by the guarded frame predicate. *)
+Example C17_example_textinput_frames :
+  let a : cluster := ([97], 1) in
+  let l20 := repeat a 20 in let l5 := repeat a 5 in
+  let hist (off4 off5 off6 col6 : Z) : list ti_stepc :=
+    [ (OSetContent (cl_text l20), [(cl_text l20, l20)], (l20, 20, 0, 0, -1, true));
+      (ODraw 10, [], (l20, 20, 15, 0, 5, true));
+      (OEv (EKey IkKillStart), [], ([], 0, 15, 0, -1, true));
+      (ODraw 10, [], ([], 0, off4, 0, 0, true));
+      (OSetContent (cl_text l5), [(cl_text l5, l5)], (l5, 5, off5, 0, -1, true));
+      (ODraw 10, [], (l5, 5, off6, 0, col6, true)) ] in
+  widths_okb (ti_prompt (ti_new [])) = true /\ ti_obs_widths_ok (hist 0 0 0 5) = true /\
+  ti_agree [97] (ti_new []) (hist 0 0 0 5) = true /\
+  ti_spec_ok true [] [97] (mkIdeal [] []) 0 (hist 0 0 0 5) = true /\
+  ti_agree [97] (ti_new []) (hist 15 15 1 4) = false /\
+  ti_draws_ok false [] 0 false (hist 15 15 1 4) = false.
+Proof. vm_compute. repeat split; reflexivity. Qed.
